@@ -27,6 +27,9 @@ def main(argv=None) -> int:
     except ModuleNotFoundError:
         print(f"ANALYSIS-ERROR property={prop} no checker module")
         return 2
+    except BaseException as ex:  # a broken checker must never look like a violation (exit 1)
+        print(f"ANALYSIS-ERROR property={prop} checker module does not load: {type(ex).__name__}: {ex}")
+        return 2
     if args.replay:
         with open(args.replay, encoding="utf-8") as f:
             rp = json.load(f)
@@ -37,4 +40,11 @@ def main(argv=None) -> int:
 
 
 if __name__ == "__main__":
-    sys.exit(main())
+    try:
+        rc_ = main()
+    except SystemExit:
+        raise
+    except BaseException as ex_:  # last resort: a traceback would exit 1 like a violation
+        print(f"ANALYSIS-ERROR internal error: {type(ex_).__name__}: {ex_}")
+        rc_ = 2
+    sys.exit(rc_)
